@@ -116,7 +116,7 @@ def make_history(rng):
         else:
             bb = rng.random() < 0.5; put("ob", bb, bb, str(bb).lower())
         events.append({"k": j, "ctx": rng.choice(ctxs), "stored": stored, "expect": expect, "cls": cls})
-    cfg = gen.gen_config(rng, zone=(1, 2, 3, 5, 8), fill=(1, 2, 3))
+    cfg = gen.gen_config(rng, zone=(1, 2, 3, 5, 8), fill=(1, 2, 3, 50))
     return schema, events, cfg, ctxs
 
 
